@@ -49,6 +49,12 @@ class _Run:
             at = op.get("at", "pre")
             key = ("pre",) if at == "pre" else (at[0], at[1], at[2])
             self.ops_at.setdefault(key, []).append(op)
+        # second run() of the same loop object after the first one has ended (scenario key "restart")
+        for op in scen.get("restart", {}).get("ops", []):
+            at = op.get("at", "pre")
+            key = ("pre2",) if at == "pre" else (at[0], at[1], at[2])
+            self.ops_at.setdefault(key, []).append(op)
+        self.phase = 1
         self.rets = {(r[0], r[1]): r[2] for r in scen.get("rets", [])}
         self.read_plans = {int(k): list(v) for k, v in scen.get("read_plans", {}).items()}
         self.dirty_seq = 0  # seq of latest alarm/watch callback entry not yet followed by idle
@@ -290,13 +296,13 @@ class _Run:
         if w.log.keep or True:
             watched = self._last_watched
         for p, wt in self.watches.items():
-            if wt["registered"] and self.pipes[p].buf:
+            if wt["registered"] and not wt.get("stale") and self.pipes[p].buf:
                 name = self.pipes[p].name
                 if watched is None or name not in watched:
                     self.violate("C13.3", "loop-waits-while-registered-watch-is-readable", f"watch {p} timeout {timeout}")
         if self.dirty_seq:
             for iid, it in self.idles.items():
-                if it["registered"] and it["reg_seq"] < self.dirty_seq and it["last_seq"] < self.dirty_seq:
+                if it["registered"] and not it.get("stale") and it["reg_seq"] < self.dirty_seq and it["last_seq"] < self.dirty_seq:
                     self.violate("C13.4", "idle-not-run-before-waiting", f"idle {iid} timeout {timeout}")
             self.dirty_seq = 0
             self.res.probe("idle_checked_at_long_block")
@@ -316,7 +322,7 @@ class _Run:
                 # data that arrived while the loop slept on a descriptor set that does not
                 # contain a registered watch: the loop slept through it
                 for p, wt in self.watches.items():
-                    if wt["registered"] and self.pipes[p].buf and self.pipes[p].name not in self._last_watched:
+                    if wt["registered"] and not wt.get("stale") and self.pipes[p].buf and self.pipes[p].name not in self._last_watched:
                         self.violate("C13.3", "loop-waits-while-registered-watch-is-readable", f"watch {p} (arrived during wait)")
             return r
 
@@ -330,16 +336,22 @@ class _Run:
         t_end = float(self.scen["config"]["t_end"])
         from urwid import ExitMainLoop  # noqa: PLC0415
 
-        def final():
-            self.log.add("cb", ["final", 0, 0])
-            self.final_ran = True
-            raise ExitMainLoop
+        def make_final(phase):
+            def final():
+                if phase != self.phase:
+                    return  # the final alarm of an earlier run() that ended before it was due
+                self.log.add("cb", ["final", 0, 0])
+                self.final_ran = True
+                raise ExitMainLoop
 
-        outcome = None
-        try:
-            for op in self.ops_at.get(("pre",), ()):
+            return final
+
+        def one_run(pre_key):
+            outcome = None
+            for op in self.ops_at.get(pre_key, ()):
                 self.perform(op)
-            self.loop.alarm(t_end, final)
+            self.final_due = self.world.clock.now + t_end
+            self.loop.alarm(t_end, make_final(self.phase))
             self.in_run = True
             try:
                 if self.kind == "twisted":
@@ -356,10 +368,36 @@ class _Run:
                 outcome = ("raised", e)
             finally:
                 self.in_run = False
+            self.log.add("end", [outcome[0], type(outcome[1]).__name__ if outcome[1] is not None else ""])
+            self.check_outcome(outcome)
+            return outcome
+
+        try:
+            outcome = one_run(("pre",))
+            # (a Twisted reactor cannot be run twice: ReactorNotRestartable is Twisted's, not urwid's)
+            if "restart" in self.scen and self.kind != "twisted" and outcome[0] in {"returned", "raised"} and not res.violations:
+                # run() again on the same loop object.  What was left over from the first run stays
+                # registered; alarms that had not fired when it ended may fire now (never early,
+                # never twice, never after removal) but are not required to.
+                self.phase = 2
+                res.probe("loop_restarted_after_" + ("exception" if self.raised and self.raised[1] != "exit" else "exit"))
+                self.log.add("restart", [])
+                for a in self.alarms.values():
+                    if a["state"] == "pending":
+                        a["late"] = True
+                # the loops differ in what survives the end of run() (trio cancels its tasks and forgets the idle
+                # callbacks, the others keep everything): nothing is demanded of registrations made before the restart
+                for wt in self.watches.values():
+                    wt["stale"] = True
+                for it in self.idles.values():
+                    it["stale"] = True
+                self.raised = None
+                self.final_ran = False
+                self.dirty_seq = 0
+                self.cb_count = 0
+                one_run(("pre2",))
         finally:
             w.block = orig_block
-        self.log.add("end", [outcome[0], type(outcome[1]).__name__ if outcome[1] is not None else ""])
-        self.check_outcome(outcome)
         res.sim_time = w.rel()
         res.faults.update({k: res.faults.get(k, 0) + v for k, v in w.faults.items()})
         for k, v in w.probes.items():
@@ -391,7 +429,7 @@ class _Run:
                 return
             # all pending alarms must have fired exactly once
             for aid, a in self.alarms.items():
-                if a["state"] == "pending" and not a["late"]:
+                if a["state"] == "pending" and not a["late"] and a["due"] < self.final_due:
                     self.violate("C13.1", "alarm-never-fired", f"alarm {aid} due {self.world.rel(a['due'])}")
             return
         inj, ek, _seq, _inside = self.raised
@@ -430,7 +468,9 @@ class LoopsEngine(Engine):
         "seeded user programs per loop kind (select, asyncio, tornado, twisted, zmq, trio): 2-8 alarms on a time "
         "grid with equal offsets and 0, 0-3 watched pipes with scheduled arrivals (some exactly at an alarm's due "
         "time, resolved by the tie-break tape), 0-3 idle callbacks, re-entrant API calls attached to callback "
-        "invocations, arbitrary return values, at most one raising callback, final ExitMainLoop. Non-trivial: at "
+        "invocations, arbitrary return values, at most one raising callback, final ExitMainLoop; in 30% of the runs run() is "
+        "then called a second time on the same loop object (not Twisted: reactors cannot restart) with new alarms, an idle "
+        "callback, a write, a removal and possibly another raising callback. Non-trivial: at "
         "least one re-entrant API call or injected exception fired, or an alarm and an arrival coincided; distinct = "
         "distinct event-log digests among those."
     )
@@ -458,6 +498,8 @@ class LoopsEngine(Engine):
         "idle_removed_from_idle",
         "watch_removed_own_watch",
         "idle_checked_at_long_block",
+        "loop_restarted_after_exception",
+        "loop_restarted_after_exit",
     )
     reducible = ("ops", "arrivals", "rets")
 
@@ -516,7 +558,24 @@ class LoopsEngine(Engine):
         read_plans = {str(p): [rng.choice([0, 1, 1, 2]) for _ in range(rng.randint(0, 3))] for p in range(n_w)}
         t_end = 4.0
         cfg = {"loop": kind, "tiebreak": [rng.randrange(4) for _ in range(8)], "t_end": t_end}
-        return {"config": cfg, "ops": ops, "arrivals": arrivals, "rets": rets, "read_plans": read_plans}
+        scen = {"config": cfg, "ops": ops, "arrivals": arrivals, "rets": rets, "read_plans": read_plans}
+        if rng.random() < 0.3:
+            # run() a second time on the same loop object: new alarms (ids from 100), possibly a new idle
+            # callback, a write to a watched pipe, a removal and one more raising callback
+            rops = []
+            n2 = rng.randint(1, 4)
+            for a in range(n2):
+                rops.append({"at": "pre", "op": "alarm", "id": 100 + a, "secs": rng.choice(GRID)})
+            if rng.random() < 0.4:
+                rops.append({"at": "pre", "op": "enter_idle", "id": n_id})
+            if n_w and rng.random() < 0.5:
+                rops.append({"at": ["alarm", 100, 0], "op": "write", "p": rng.randrange(n_w), "n": rng.randint(1, 3)})
+            if rng.random() < 0.3:
+                rops.append({"at": ["alarm", 100 + rng.randrange(n2), 0], "op": "remove_alarm", "id": 100 + rng.randrange(n2)})
+            if rng.random() < 0.3:
+                rops.append({"at": ["alarm", 100 + rng.randrange(n2), 0], "op": "raise", "exc": rng.choice(EXC_KINDS)})
+            scen["restart"] = {"ops": rops}
+        return scen
 
     def execute(self, scen: dict) -> Result:
         res = Result()
@@ -536,6 +595,15 @@ class LoopsEngine(Engine):
 
     def simplify(self, scen: dict):
         cfg = scen["config"]
+        if "restart" in scen:
+            c = dict(scen)
+            del c["restart"]
+            yield c
+            rops = scen["restart"]["ops"]
+            for i in range(len(rops)):
+                c = dict(scen)
+                c["restart"] = {"ops": rops[:i] + rops[i + 1 :]}
+                yield c
         if any(cfg.get("tiebreak", [])):
             c = dict(scen)
             c["config"] = dict(cfg, tiebreak=[0] * len(cfg["tiebreak"]))
